@@ -1012,6 +1012,29 @@ def list_traffic(r):
     return [b"SET", key, b"notalist"]
 
 
+def classify_interleaved(case, orc, dis, findings):
+    """a failing schedule is a listed finding iff (a) the source variant of the model predicted everything and the schedule has a
+    finding's shape, or (b) - the stale-waiter finding, which no switch of the model reproduces - everything that failed or
+    disagreed lies at or after the kill-and-transactions write that ends the schedule"""
+    hit = [t for t in case.get("tags", []) if t in findings and t != "stale-waiter"]
+    k = case.get("kill_at")
+    late = lambda e: k is not None and (e == k or (isinstance(e, str) and (e in ("drain", "end") or e.startswith("final dump"))))
+    early_orc = [x for x in orc if not late(x.get("event"))]
+    early_dis = [x for x in dis if not late(x.get("event"))]
+    late_any = [x for x in list(orc) + list(dis) if late(x.get("event"))]
+    if early_dis or (early_orc and not hit):
+        return None
+    if late_any and not (hit and not [x for x in dis if late(x.get("event"))]) and "stale-waiter" not in findings:
+        return None
+    if late_any and [x for x in dis if late(x.get("event"))] and "stale-waiter" not in findings:
+        return None
+    if early_orc:
+        return findings[hit[0]]
+    if late_any:
+        return findings["stale-waiter"] if ("stale-waiter" in findings and k is not None) else (findings[hit[0]] if hit else None)
+    return None
+
+
 def run_interleaved(rep, tw, r, n_events, given=None):
     """2-3 connections on server A plus up to two third-party clients that block in BLPOP/BRPOP, one request at
     a time in a random (or given) order.  The model predicts every reply AND which blocked client is served
@@ -1028,13 +1051,19 @@ def run_interleaved(rep, tw, r, n_events, given=None):
     clis, ids, qn, blocked = {}, {}, {}, set()
     nxt = [100 * tw.cid]
 
+    sid = {}            # the server's own id of the third-party clients (for CLIENT KILL ID)
+
     def connect(slot):
         nxt[0] += 1
         ids[slot] = nxt[0]
         clis[slot] = tw.A.client(timeout=2.0)
+        if slot in BLOCKER_SLOTS:
+            x = clis[slot].cmd("CLIENT", "ID")
+            sid[slot] = x[1] if x[0] == "i" else -1
     for s in list(range(nconn)) + list(BLOCKER_SLOTS):
         connect(s)
     events, oracle, disagree = [], [], []
+    kill_at = None
     burst = {}          # slot -> commands still to send: a transaction working several times on a key somebody waits on
     case_tags = set()   # shapes of open findings met in this schedule
 
@@ -1043,40 +1072,61 @@ def run_interleaved(rep, tw, r, n_events, given=None):
             rep.count(key)
 
     def deliveries(i, after):
-        """what the service of blocked clients after the last frame must have sent to them"""
+        """what the service of blocked clients after the last frame must have sent to them (prescribed), and what the
+        source variant of the model says the implementation sends (they differ only under an open finding)"""
         dcode, dspec = m.last_deliveries
         got = []
-        for cid, want in dspec:
+        for cid in [c for c, _ in dspec] + [c for c, _ in dcode if c not in [x for x, _ in dspec]]:
             slot = next((sl for sl, c in ids.items() if c == cid), None)
             if slot is None:
                 oracle.append({"event": i, "why": "harness: delivery prescribed for an unknown connection %d" % cid})
                 continue
             try:
                 have = canon_reply("", clis[slot].read_reply(2.0))
+                blocked.discard(slot)
             except (Closed, TimeoutError, ProtocolError, OSError) as e:
-                have = "nothing:" + type(e).__name__
-            got.append((cid, have))
-            blocked.discard(slot)
+                have = None
+            if have is not None:
+                got.append((cid, have))
             note("il.served.after-%s" % after)
             if rep:
-                rep.nontrivial(("il", "served", after, have == want))
-            if have != want:
-                oracle.append({"event": i, "why": "a blocked client was not served what is prescribed after this frame", "conn": slot, "got": have, "prescribed": want, "tag": None})
-        if [x for x in dcode] != got and dcode != dspec:
+                rep.nontrivial(("il", "served", after, have is not None))
+        if got != dspec:
+            oracle.append({"event": i, "why": "the blocked clients were not served what is prescribed after this frame", "got": got, "prescribed": dspec, "tag": None})
+        if got != dcode:
             disagree.append({"event": i, "what": "deliveries", "impl": got, "code": dcode})
 
     try:
         total = len(given["events"]) if given else n_events
         for i in range(total):
+            extra = None
             if given:
-                slot, kind, hexargs = given["events"][i]
+                ev = given["events"][i]
+                slot, kind, hexargs = ev[0], ev[1], ev[2]
+                extra = ev[3] if len(ev) > 3 else None
                 args = [unhx(x) for x in hexargs]
             else:
                 free_blockers = [sl for sl in BLOCKER_SLOTS if sl not in blocked]
-                if free_blockers and r.chance(1, 9):
+                wl = [x.split(":") for x in m.waiters().split(";") if x != "."]
+                shared = [k for k in (wl[0][3].split(",") if len(wl) >= 2 else []) if k in wl[1][3].split(",")]
+                idle = [sl for sl in range(nconn) if not m.conn(ids[sl])[1]]
+                if shared and idle and len(blocked) == 2 and r.chance(1, 2):
+                    # stale waiter: the FIRST waiter on a key two third parties wait on is killed, and in the same write a
+                    # transaction pushes to the key and a second one reads it several times: the second waiter must be served
+                    # after the first EXEC, never between two commands of the second
+                    slot, kind, args = r.choice(idle), "killburst", []
+                    victim = next(sl for sl, c in ids.items() if c == int(wl[0][0]))
+                    key = unhx(shared[0])
+                    extra = {"victim": victim, "frames": [[hx(x) for x in f] for f in (
+                        [[b"MULTI"], [r.choice([b"RPUSH", b"LPUSH"]), key] + [b"x", b"y"][:r.range(1, 2)], [b"EXEC"], [b"MULTI"], [b"LLEN", key],
+                         r.choice([[b"LLEN", key], [b"LPOP", key]]), [b"LRANGE", key, b"0", b"-1"], [b"EXEC"]])]}
+                elif free_blockers and r.chance(1, 9):
                     slot = r.choice(free_blockers)
                     kind = "block"
-                    args = [r.choice([b"BLPOP", b"BRPOP"])] + [r.choice(BLOCK_KEYS) for _ in range(r.range(1, 2))] + [b"0"]
+                    keys = [r.choice(BLOCK_KEYS) for _ in range(r.range(1, 2))]
+                    if wl and r.chance(1, 2):
+                        keys[0] = unhx(r.choice(wl[0][3].split(",")))       # wait behind somebody else
+                    args = [r.choice([b"BLPOP", b"BRPOP"])] + keys + [b"0"]
                 else:
                     pending = [sl for sl in burst if burst[sl]]
                     slot = r.choice(pending) if (pending and r.chance(2, 3)) else r.below(nconn)
@@ -1134,8 +1184,49 @@ def run_interleaved(rep, tw, r, n_events, given=None):
                             args = g.queue(1, specials=False)[0][0]
             if given and slot in blocked:
                 continue          # (shrunk schedules) a blocked client sends nothing
-            events.append([slot, kind, [hx(x) for x in args]])
+            events.append([slot, kind, [hx(x) for x in args]] + ([extra] if extra is not None else []))
             cid = ids[slot]
+            if kind == "killburst":
+                victim = extra["victim"]
+                if victim not in blocked or m.conn(cid)[1]:
+                    events.pop()
+                    continue      # (shrunk schedules) nothing to kill / the sender is inside a transaction
+                frames = [[b"CLIENT", b"KILL", b"ID", str(sid[victim]).encode()]] + [[unhx(x) for x in f] for f in extra["frames"]]
+                case_tags.add("stale-waiter")
+                kill_at = i
+                note("il.stale-waiter.kill-then-transactions-in-one-write")
+                try:
+                    clis[slot].send_raw(b"".join(Client.encode(f) for f in frames))
+                    raws = [clis[slot].read_reply(2.0) for _ in frames]
+                except (Closed, TimeoutError, ProtocolError, OSError) as e:
+                    oracle.append({"event": i, "why": "the pipeline after CLIENT KILL failed (%s)" % type(e).__name__, "tag": None})
+                    break
+                m.disc(ids[victim])
+                blocked.discard(victim)
+                clis[victim].close()
+                connect(victim)
+                oracle_kill = show_reply(raws[0]) != "( i 1 )"
+                if oracle_kill:
+                    oracle.append({"event": i, "why": "harness: CLIENT KILL ID of a blocked client did not answer 1", "got": show_reply(raws[0]), "tag": None})
+                qnames, all_d_code, all_d_spec = [], [], []
+                for f, raw in zip(frames[1:], raws[1:]):
+                    nm = name_of(f)
+                    impl = canon_exec(qnames, raw) if nm == "EXEC" else canon_reply(nm, raw)
+                    code, spec, same = m.frame(cid, f)
+                    all_d_code += m.last_deliveries[0]
+                    all_d_spec += m.last_deliveries[1]
+                    qnames = [] if nm in ("MULTI", "EXEC") else qnames + [nm]
+                    st = {"event": i, "conn": slot, "text": " ".join(repr(x.decode("latin-1")) for x in f), "impl": impl, "code": code, "spec": spec, "same": same}
+                    if rep:
+                        rep.evaluations += 1
+                    if not eqx(impl, code):
+                        disagree.append(st)
+                    if failed_oracle(impl, code, spec, same):
+                        oracle.append(dict(st, why="a transaction sent after the kill of a stale waiter saw another client's pop between two of its commands"
+                                           if nm == "EXEC" else "reply differs from the prescribed one", tag=None))
+                m.last_deliveries = (all_d_code, all_d_spec)
+                deliveries(i, "stale-waiter-kill")
+                break             # the schedule ends here (what follows could not be attributed)
             if kind == "disc":
                 clis[slot].close()
                 m.disc(cid)
@@ -1239,7 +1330,7 @@ def run_interleaved(rep, tw, r, n_events, given=None):
         for c in clis.values():
             c.close()
     case = {"kind": "interleaved", "setup": [[hx(x) for x in c] for c in setup], "nconn": nconn, "events": [e for e in events if e[1] != "drain"],
-            "tags": sorted(case_tags)}
+            "tags": sorted(case_tags), "kill_at": kill_at}
     if oracle or disagree:
         tw.restart()        # a waiter may have been left behind: no FLUSHALL removes it
     return case, oracle, disagree
@@ -1419,6 +1510,86 @@ def witness_publish():
         s.stop()
 
 
+def witness_unwatch():
+    s = Server("c07wu")
+    try:
+        a, b = s.client(), s.client()
+        pre = [show_reply(a.cmd(*f)) for f in (["SET", "k", "1"], ["WATCH", "k"], ["MULTI"])]
+        r_un = show_reply(a.cmd("UNWATCH"))
+        r_set = show_reply(a.cmd("SET", "k", "from-tx"))
+        r_b = show_reply(b.cmd("SET", "k", "from-b"))
+        r_exec = show_reply(a.cmd("EXEC"))
+        k = show_reply(b.cmd("GET", "k"))
+        return {"replies": pre + [r_un, r_set, r_b, r_exec], "k": k,
+                "deviates": r_un == OK and r_exec == "( a ( s 4f4b ) )" and k == "( b %s )" % hx(b"from-tx"),
+                "prescribed": r_un == QUEUED and r_exec == "( na )" and k == "( b %s )" % hx(b"from-b")}
+    finally:
+        s.stop()
+
+
+def witness_arity():
+    s = Server("c07wa")
+    try:
+        a, b = s.client(), s.client()
+        r1 = [show_reply(a.cmd(*f)) for f in (["SET", "k", "0"], ["WATCH", "k"], ["UNWATCH", "junk"])]
+        b.cmd("SET", "k", "1")
+        r2 = [show_reply(a.cmd(*f)) for f in (["MULTI"], ["INCR", "c1"], ["EXEC"])]             # k changed, still watched: nil
+        r3 = [show_reply(a.cmd(*f)) for f in (["MULTI", "junk"], ["MULTI"], ["INCR", "c2"], ["EXEC", "junk"], ["DISCARD", "junk"], ["EXEC"])]
+        c2 = show_reply(b.cmd("GET", "c2"))
+        return {"unwatch_junk_then_changed": r1 + r2, "multi_exec_discard_junk": r3, "c2": c2,
+                "deviates": r1[2] == OK and r2[2] != "( na )" and r3[0] == OK,
+                "prescribed": r1[2].startswith("( e") and r2[2] == "( na )" and r3[0].startswith("( e") and r3[1] == OK and r3[3].startswith("( e")
+                and r3[4].startswith("( e") and r3[5] == "( a ( i 1 ) )" and c2 == "( b 31 )"}
+    finally:
+        s.stop()
+
+
+def witness_client():
+    s = Server("c07wc")
+    try:
+        a = s.client()
+        cid = a.cmd("CLIENT", "ID")
+        rs = [show_reply(a.cmd(*f)) for f in (["MULTI"], ["CLIENT", "ID"], ["CLIENT", "SETNAME", "worker-7"], ["CLIENT", "GETNAME"], ["EXEC"])]
+        after = show_reply(a.cmd("CLIENT", "GETNAME"))
+        want = "( a ( i %d ) ( s 4f4b ) ( b %s ) )" % (cid[1], hx(b"worker-7")) if cid[0] == "i" else "?"
+        return {"client_id_direct": show_reply(cid), "replies": rs, "getname_after": after,
+                "deviates": rs[4].startswith("( a ( i 0 ) ( e") and after == "( nb )", "prescribed": rs[4] == want and after == "( b %s )" % hx(b"worker-7")}
+    finally:
+        s.stop()
+
+
+def witness_stale_waiter():
+    """a stale first waiter (killed, still registered) before two transactions in one write: the wake-up of the second
+    waiter must not be carried out inside the second EXEC"""
+    s = Server("c07wk")
+    try:
+        a1, a2, b = s.client(), s.client(), s.client()
+        id1 = a1.cmd("CLIENT", "ID")[1]
+        for c in (a1, a2):
+            c.send("BLPOP", "k", "0")
+            for _ in range(3000):
+                reg = b.cmd("VERIF", "BLOCKED")
+                n = 0
+                if reg[0] == "a":
+                    for j in range(0, len(reg[1]) - 1, 2):
+                        if reg[1][j] == ("b", b"k"):
+                            n = len(reg[1][j + 1][1])
+                if n >= (1 if c is a1 else 2):
+                    break
+        frames = [["CLIENT", "KILL", "ID", str(id1)], ["MULTI"], ["RPUSH", "k", "x"], ["EXEC"], ["MULTI"], ["LLEN", "k"], ["LLEN", "k"], ["LRANGE", "k", "0", "-1"], ["EXEC"]]
+        b.send_raw(b"".join(Client.encode(f) for f in frames))
+        rs = [show_reply(b.read_reply()) for _ in frames]
+        try:
+            got2 = show_reply(a2.read_reply(2.0))
+        except (TimeoutError, Closed):
+            got2 = None
+        return {"replies": rs, "second_waiter_received": got2,
+                "deviates": rs[8] == "( a ( i 1 ) ( i 0 ) ( a ) )",
+                "prescribed": rs[8] in ("( a ( i 0 ) ( i 0 ) ( a ) )",) and got2 == "( a ( b 6b ) ( b 78 ) )"}
+    finally:
+        s.stop()
+
+
 def source_switches():
     """the quirk switches as translator/tx_facts.py reads them off the current source (the Lean driver runs
     `Quirks.ofSource`, built from the same facts): shape -> does the tree still deviate?"""
@@ -1444,7 +1615,8 @@ def switches():
     return _SW
 
 
-WITNESSES = {"select-in-exec": witness_select, "blocking-in-exec": witness_blocking, "immediate-in-multi": witness_publish}
+WITNESSES = {"select-in-exec": witness_select, "blocking-in-exec": witness_blocking, "immediate-in-multi": witness_publish,
+             "unwatch-in-multi": witness_unwatch, "control-arity": witness_arity, "client-conn-zero": witness_client, "stale-waiter": witness_stale_waiter}
 
 
 # ---------------------------------------------------------------- main
@@ -1579,9 +1751,9 @@ def main(tier, seed):
             case, orc, dis = run_interleaved(rep, tw, rr, rr.range(25, 60))
             rep.traces_validated += 1
             if orc:
-                hit = [t for t in case.get("tags", []) if t in findings]
-                if not dis and hit:
-                    known_seen.setdefault(findings[hit[0]]["id"], (findings[hit[0]], case))
+                f = classify_interleaved(case, orc, dis, findings)
+                if f:
+                    known_seen.setdefault(f["id"], (f, case))
                 else:
                     new_fail.append(("interleaved connections: reply or state differs from the prescribed one at event %s" % orc[0].get("event"),
                                      case, {"oracle": orc[:5], "disagree": dis[:5]}))
@@ -1612,7 +1784,7 @@ def main(tier, seed):
         raise InternalError("workload made no progress: %r" % w["counts"])
 
     # ---------------- (iv) witnesses of listed findings, against the switches the translator reads off the source
-    sw = source_switches()
+    sw = switches()
     rep.extra["source_switches"] = sw
     stale = []
     for shape, fn in WITNESSES.items():
@@ -1701,7 +1873,7 @@ def shrink_interleaved(case, findings):
 
     def fails(c):
         cs, orc, dis = run_interleaved(None, tw, Rng(0), 0, given=c)
-        return bool(orc) and not (not dis and any(t in findings for t in cs.get("tags", [])))
+        return bool(orc) and classify_interleaved(cs, orc, dis, findings) is None
     try:
         if not fails(case):
             return case
@@ -1762,11 +1934,11 @@ def replay(path):
             print("ORACLE:", o)
         for d in dis:
             print("MODEL-DISAGREES:", d)
-        hit = [t for t in rcase.get("tags", []) if t in findings]
-        if orc and not (not dis and hit):
+        f = classify_interleaved(rcase, orc, dis, findings) if orc else None
+        if orc and not f:
             print("VIOLATION property=C07 replay=%s" % path)
             return 1
-        print("OK (the property's oracle holds on this replay)" if not orc else "KNOWN-FINDING: property=C07 %s" % findings[hit[0]]["id"])
+        print("OK (the property's oracle holds on this replay)" if not orc else "KNOWN-FINDING: property=C07 %s" % f["id"])
         return 0
     if kind == "straddle":
         tw = Twin(rep)
